@@ -45,6 +45,21 @@ static void apply(struct act a) {
     if (a.t < 1 || a.t > NT) {
         return;
     }
+    if (a.op == 'I') {
+        /* cancel of a task that is not scheduled (initialised, or already run): whether its function is called with
+         * CANCELED is left open, but nobody else may be affected */
+        if (is_sched[a.t]) {
+            return;
+        }
+        vh_begin("CancelIdle");
+        vh_int("t", a.t);
+        vh_end();
+        aws_task_scheduler_cancel_task(&sched, tasks[a.t]);
+        vh_begin("CancelIdleEnd");
+        vh_int("t", a.t);
+        vh_end();
+        return;
+    }
     if (a.op == 'C') {
         if (!is_sched[a.t]) {
             return; /* precondition of cancel_task: the task is scheduled */
@@ -92,6 +107,12 @@ static int parse_act(int i, struct act *a) { /* returns tokens consumed, 0 on er
     const char *o = vh_args(i);
     if (!strcmp(o, "NOW")) {
         a->op = 'N';
+        a->t = (int)vh_argi(i + 1);
+        a->time = 0;
+        return 2;
+    }
+    if (!strcmp(o, "CANCELI")) {
+        a->op = 'I';
         a->t = (int)vh_argi(i + 1);
         a->time = 0;
         return 2;
@@ -178,7 +199,7 @@ int main(int argc, char **argv) {
             continue;
         }
         struct act a;
-        if (vh_is("NOW") || vh_is("FUT") || vh_is("CANCEL")) {
+        if (vh_is("NOW") || vh_is("FUT") || vh_is("CANCEL") || vh_is("CANCELI")) {
             if (!parse_act(0, &a)) {
                 return 3;
             }
